@@ -35,6 +35,7 @@ type WNode struct {
 	AllocMem      int64 // bytes
 	NoAlloc       bool  // nil allocatable map
 	Extra         string
+	ZoneOffset    int // seconds east of UTC of the location the creation timestamp carries (0: the process default)
 }
 
 func (n *WNode) clone() *WNode {
@@ -179,7 +180,12 @@ func (n *WNode) materialise(nowSec int64) *v1.Node {
 		node.Annotations[k] = v
 	}
 	if !n.CreatedZero {
-		node.CreationTimestamp = metav1.NewTime(time.Unix(nowSec-n.CreatedAgo, 0))
+		t := time.Unix(nowSec-n.CreatedAgo, 0)
+		if n.ZoneOffset != 0 {
+			// decoded while another zone offset was in force (daylight saving): the same instant, another wall-clock reading
+			t = t.In(time.FixedZone("", n.ZoneOffset))
+		}
+		node.CreationTimestamp = metav1.NewTime(t)
 	}
 	for _, t := range n.Taints {
 		val := t.Raw
